@@ -424,7 +424,8 @@ ROUND6 = {
         "address object is stored before it is handed on.",
 }
 ROUND6["C03"] += (" The SSE2 message schedule is SHA-256's for every input (exact symbolic evaluation of MSG4 and its helpers over GF(2) with canonical sums; the flow of "
-                  "schedule vectors through the transform), and the SSE2 file's rounds and round constants are FIPS 180-4's.")
+                  "schedule vectors through the transform), and the SSE2 file's rounds and round constants are FIPS 180-4's. The SHA-NI transform is FIPS 180-4's compression function for every state and block "
+                  "(the whole function evaluated symbolically; SHA256RNDS2/MSG1/MSG2 by their Intel SDM definitions, which are trusted).")
 ROUND6["C01"] += " The HMAC pads are XORed with exactly the key's bytes into freshly initialised contexts; the word-vector helpers convert len/4 words in the hash's byte order; copies and wipes of the stack scratch stay inside their objects."
 ROUND6.setdefault("C02", "The AES-NI key object has room for every round key used.")
 ROUND6["C19"] = ROUND6.get("C19", "") + " A zero-length formatted string is not a failure; a failed strftime/gmtime_r is reported; results of status functions are compared with values they can return."
